@@ -134,9 +134,9 @@ def run_backup(job):
         state = {'n': 0, 'armed': False}
         events = []          # what really happened, in order, as DosBackup actions (BackupConf)
         expand = {'add': lambda key: [{'e': 'add', 'k': key}],
-                  'pack': lambda key: [{'e': 'pstart'}, {'e': 'pappend'}, {'e': 'pcommit'}],
-                  'packz': lambda key: [{'e': 'pstart'}, {'e': 'pappend'}, {'e': 'pcommit'}],
-                  'packpp': lambda key: [{'e': 'pstart'}, {'e': 'pappend'}, {'e': 'pcommit'}, {'e': 'cstart'}, {'e': 'cleanall'}],
+                  'pack': lambda key: [{'e': 'pstart'}, {'e': 'pappend'}, {'e': 'pcommit'}, {'e': 'pdone'}],
+                  'packz': lambda key: [{'e': 'pstart'}, {'e': 'pappend'}, {'e': 'pcommit'}, {'e': 'pdone'}],
+                  'packpp': lambda key: [{'e': 'pstart'}, {'e': 'pappend'}, {'e': 'pcommit'}, {'e': 'pcleanown'}],
                   'clean': lambda key: [{'e': 'cstart'}, {'e': 'cleanall'}],
                   'direct': lambda key: [{'e': 'dappend', 'k': key}, {'e': 'dcommit'}],
                   'directz': lambda key: [{'e': 'dappend', 'k': key}, {'e': 'dcommit'}]}
